@@ -14,6 +14,9 @@ import (
 	"github.com/buildbarn/bb-storage/pkg/filesystem"
 	"github.com/buildbarn/bb-storage/pkg/filesystem/path"
 	"github.com/buildbarn/bb-storage/pkg/util"
+
+	"google.golang.org/grpc/codes"
+	"google.golang.org/grpc/status"
 )
 
 // StringMatcher is a function type that has the same signature as
@@ -64,6 +67,26 @@ func newInMemorySubtree(fileAllocator FileAllocator, symlinkFactory SymlinkFacto
 		defaultAttributesSetter: defaultAttributesSetter,
 		namedAttributesFactory:  namedAttributesFactory,
 	}
+}
+
+// checkNormalizedNamesUnique reports an error if two of the children
+// have names that are identical after normalization (e.g., "a" and "A"
+// on a case insensitive file system). Such children cannot be attached
+// to a single directory.
+func (fs *inMemoryFilesystem) checkNormalizedNamesUnique(children map[path.Component]InitialChild) error {
+	names := make(map[NormalizedComponent]path.Component, len(children))
+	for name := range children {
+		normalizedName := fs.normalizer.Normalize(name)
+		if other, ok := names[normalizedName]; ok {
+			a, b := other.String(), name.String()
+			if a > b {
+				a, b = b, a
+			}
+			return status.Errorf(codes.InvalidArgument, "Directory contains children %#v and %#v, whose names are identical on this file system", a, b)
+		}
+		names[normalizedName] = name
+	}
+	return nil
 }
 
 func (s *inMemorySubtree) createNewDirectory(initialContentsFetcher InitialContentsFetcher) *inMemoryPrepopulatedDirectory {
@@ -302,6 +325,16 @@ func (i *inMemoryPrepopulatedDirectory) getContents() (*inMemoryDirectoryContent
 	if i.initialContentsFetcher != nil {
 		children, err := i.initialContentsFetcher.FetchContents(func(name path.Component) FileReadMonitor { return nil })
 		if err != nil {
+			return nil, err
+		}
+		if err := i.subtree.filesystem.checkNormalizedNamesUnique(children); err != nil {
+			// The leaves will not be attached. Release them, just
+			// like FetchContents() does when it fails itself.
+			for _, child := range children {
+				if _, leaf := child.GetPair(); leaf != nil {
+					leaf.Unlink()
+				}
+			}
 			return nil, err
 		}
 		i.initialContentsFetcher = nil
@@ -554,6 +587,10 @@ func (i *inMemoryPrepopulatedDirectory) CreateChildren(children map[path.Compone
 	if contents.isDeleted {
 		i.lock.Unlock()
 		return syscall.ENOENT
+	}
+	if err := i.subtree.filesystem.checkNormalizedNamesUnique(children); err != nil {
+		i.lock.Unlock()
+		return err
 	}
 
 	// Remove entries that are about to be overwritten.
